@@ -2,7 +2,7 @@ SPECIFICATION GSpec
 CONSTANTS
   Threads = {1}
   Dev = {}
-  CmdSet = {"continue", "pause", "next", "setBps0", "setBps1", "stackTrace"}
+  CmdSet = {"continue", "pause", "next", "setBps0", "setBps1"}
   MaxReqs = 6
   MaxQueued = 2
   MaxStops = 6
